@@ -221,6 +221,11 @@ class J1939_21:
                             self.__send_tp_dt(buf['src_address'], buf['dest_address'], data)
                             if should_break:
                                 break
+                        else:
+                            # nothing (more) to send in this window, e.g. a CTS received
+                            # after the last packet: wait for the next CTS / EndOfMsgACK
+                            buf['state'] = self.SendBufferState.WAITING_CTS
+                            buf['deadline'] = time.time() + self.Timeout.T3
 
                         # recalc next wakeup
                         if next_wakeup > buf['deadline']:
